@@ -74,6 +74,31 @@ pub fn on_thread<R: Send, F: FnOnce() -> R + Send>(t: u32, f: F) -> R {
     crate::native::on_thread(t, f)
 }
 
+extern "C" {
+    pub fn verif_thread_zombie(t: u32);
+    pub fn verif_thread_gone(t: u32);
+}
+
+/// Simulated thread `t` shuts down: its thread-local destructors run and THEN `f` still runs on it
+/// (what a destructor of another thread-local, or a late `atexit`-like hook, would do).
+#[cfg(not(feature = "native"))]
+#[inline(always)]
+pub fn on_dying_thread<F: FnOnce()>(t: u32, f: F) {
+    unsafe {
+        verif_thread_zombie(t);
+        verif_set_thread(t);
+    }
+    f();
+    unsafe {
+        verif_thread_gone(t);
+        verif_set_thread(0);
+    }
+}
+#[cfg(feature = "native")]
+pub fn on_dying_thread<F: FnOnce() + Send>(t: u32, f: F) {
+    crate::native::on_dying_thread(t, f)
+}
+
 /// Simulated thread `t` exits: its thread-local destructors run.
 #[inline(always)]
 pub fn thread_exit(t: u32) {
